@@ -46,12 +46,12 @@ type engineDef struct {
 }
 
 var engines = []engineDef{
-	{"bsp", []string{"C01"}, false},
-	{"logbatch", []string{"C06"}, false},
-	{"metricsim", []string{"C02", "C08", "C12"}, false},
+	{"bsp", []string{"C01"}, true},
+	{"logbatch", []string{"C06"}, true},
+	{"metricsim", []string{"C02", "C08", "C12"}, true},
 	{"spanlin", []string{"C10"}, true},
 	{"otlpretry", []string{"C14"}, false},
-	{"lifecycle", []string{"C15"}, false},
+	{"lifecycle", []string{"C15"}, true},
 	{"globalsim", []string{"C16"}, true},
 	{"promsim", []string{"C18"}, true},
 }
@@ -566,6 +566,9 @@ func main() {
 			for _, v := range r.Violations {
 				fmt.Printf("violation property=%s class=%s sig=%s: %s\n", v.Property, v.Class, v.Sig, v.Msg)
 			}
+			for k, v := range r.Extra {
+				fmt.Printf("extra %s: %s\n", k, v)
+			}
 		}
 		return
 	}
@@ -641,6 +644,9 @@ func explore(prop string, eng *engineDef, tier string) int {
 	nrace := 0
 	if eng.race {
 		nrace = max(1, nworkers/4)
+		if v, err := strconv.Atoi(os.Getenv("VERIF_RACE_WORKERS")); err == nil && v >= 0 {
+			nrace = min(v, nworkers) // (self-tests: all or none of the workers on the race-detector build)
+		}
 	}
 	binOf := func(race bool) string {
 		if race && binRace != "" {
